@@ -13,7 +13,8 @@ MANIFEST = dict(
          "at call k receives exactly the first k+1 calls of the uninterrupted run, then exactly one finish after Stop / no "
          "finish and the error after Fail; read_failure_is_prefix: a read() failing or interrupted at any index of the history "
          "returns the error without finish and the delivered results are a prefix of those of every run agreeing before that "
-         "read. Proved compositionally (a prefix law closed under sequencing, branching, state-dependent continuation and "
+         "read; stateful_sink_*: the same for every deterministic stateful sink (a reply function consistent with the sink on the delivered "
+         "calls exists and yields the cut run). Proved compositionally (a prefix law closed under sequencing, branching, state-dependent continuation and "
          "fuelled loops) over the model mirroring core.rs/glue.rs/line_buffer.rs; model=code correspondence at every stop "
          "index and on failing read histories plus the prefix oracle on the real code tie it to /repo. -m N (printer level) is "
          "C10's. D7 fixed.",
